@@ -303,6 +303,104 @@ def run_case(spec):
                 {"stage_log": stage_log, "outcome": out})
 
 
+# ---------------------------------------------------------------- real-reactor differential
+@st.composite
+def s_insensitive(draw):
+    """Programs whose observations cannot depend on wall-clock timing: every Deferred fires via
+    callLater(0), nothing never fires, no interrupt, generous timeout."""
+    def stage():
+        return {"mode": draw(st.sampled_from(["deferred", "sync"])), "delay": 0,
+                "result": draw(st.sampled_from(["ok", "ok", "ok", "error", "fail", "skip"])), "never": False, "leave_call": None,
+                "log_err": draw(st.sampled_from(["no"] * 5 + ["one", "two_flush_one", "one_flush_it"])),
+                "drop_failed": draw(st.sampled_from([False] * 5 + [True]))}
+    return {"setUp": stage(), "test": stage(), "tearDown": stage(), "cleanups": [stage() for _ in range(draw(st.integers(0, 2)))],
+            "timeout": 20, "interrupt": None, "variant": draw(st.sampled_from(["plain", "broken"])),
+            "suppress": draw(st.booleans()), "store": draw(st.booleans()), "ties": []}
+
+
+def observe(spec, reactor):
+    """Run the program on ``reactor`` (virtual or the real global one) -> (stage names, outcome, leftover calls)."""
+    import testtools
+    from testtools.twistedsupport import (AsynchronousDeferredRunTest, AsynchronousDeferredRunTestForBrokenTwisted,
+                                          flush_logged_errors)
+    from twisted.internet import defer
+    from twisted.python import log as tlog
+    stage_log = []
+    cls = AsynchronousDeferredRunTest if spec["variant"] == "plain" else AsynchronousDeferredRunTestForBrokenTwisted
+    factory = cls.make_factory(reactor=reactor, timeout=spec["timeout"], suppress_twisted_logging=spec["suppress"],
+                               store_twisted_logs=spec["store"])
+
+    def act(case, name, s):
+        stage_log.append(name)
+        if s["log_err"] == "one":
+            tlog.err(RuntimeError("logged-MARK"))
+        elif s["log_err"] == "two_flush_one":
+            tlog.err(ValueError("a"))
+            tlog.err(KeyError("b"))
+            flush_logged_errors(ValueError)
+        elif s["log_err"] == "one_flush_it":
+            tlog.err(ValueError("a"))
+            flush_logged_errors(ValueError)
+        if s["drop_failed"]:
+            defer.fail(RuntimeError("dropped-MARK"))
+        exc = {"error": RuntimeError("stage-MARK"), "fail": case.failureException("stage-MARK"), "skip": case.skipException("stage-MARK")}.get(s["result"])
+        if s["mode"] == "sync":
+            if exc is not None:
+                raise exc
+            return None
+        d = defer.Deferred()
+        reactor.callLater(0, d.callback if exc is None else d.errback, None if exc is None else exc)
+        return d
+
+    class T(testtools.TestCase):
+        run_tests_with = factory
+
+        def setUp(self):
+            super().setUp()
+            for i, c in enumerate(spec["cleanups"]):
+                self.addCleanup(lambda i=i, c=c: act(self, "cleanup%d" % i, c))
+            return act(self, "setUp", spec["setUp"])
+
+        def test_it(self):
+            return act(self, "test", spec["test"])
+
+        def tearDown(self):
+            r = act(self, "tearDown", spec["tearDown"])
+            super().tearDown()
+            return r
+    res = Ext()
+    T("test_it").run(res)
+    outs = [e[0] for e in res.events if e[0] in OUTCOMES]
+    names = [e[0] for e in res.events if e[0] in ("startTest", "stopTest") or e[0] in OUTCOMES]
+    return stage_log, outs, names, len(reactor.getDelayedCalls())
+
+
+def run_differential(spec):
+    _quiet_twisted()
+    import gc
+    from twisted.internet import reactor as real
+    vs = []
+    with SignalSandbox():
+        v = observe(spec, VReactor())
+        gc.collect(0)
+        r = observe(spec, real)
+        gc.collect(0)
+    if v[0] != r[0]:
+        vs.append(V("differential", "stage-order", "virtual reactor ran %r, the real reactor %r" % (v[0], r[0])))
+    if v[1] != r[1] or v[2] != r[2]:
+        vs.append(V("differential", "outcome", "virtual reactor: %r, real reactor: %r" % (v[2], r[2])))
+    if r[3] or real.running:
+        vs.append(V("clean", "real-reactor-left-dirty", "real reactor: %d delayed calls pending, running=%r" % (r[3], real.running)))
+    m = model(spec)
+    if not m["tie"] and len(r[1]) == 1:
+        if (r[1][0] == "addSuccess") != (not m["bad"]):
+            vs.append(V("outcome", "real-reactor-vs-model", "real reactor reported %s, model bad=%r" % (r[1][0], sorted(m["bad"]))))
+    nt = any(s["mode"] == "deferred" for s in [spec["setUp"], spec["test"], spec["tearDown"]] + spec["cleanups"]) and bool(m["bad"])
+    return Case(vs, nt, ["real-reactor", "clean" if not m["bad"] else "bad"], {"real": r[2], "virtual": v[2]})
+
+
 def subchecks(tier):
     q = tier == "quick"
-    return [Sub("async_programs", run_case, CASE, 4000 if q else 100000)]
+    return [Sub("async_programs", run_case, CASE, 4000 if q else 100000),
+            Sub("real_reactor_differential", run_differential, s_insensitive(), 60 if q else 1500, shrink=False,
+                note="timing-insensitive programs run on the virtual AND on Twisted's real global reactor; observations must agree")]
